@@ -25,7 +25,7 @@ RULE = ('cases = one segment (all four types; self-intersecting cubics; arcs wit
 ASSUMPTIONS = ['the original object\'s own point() is the reference curve (its correctness is C03/C04\'s subject)',
                'arc results are compared to 1e-6*size (theta/delta come from acos, sqrt(eps)-conditioned; see C04), Bezier results to 1e-9*size, '
                'interior Bezier crops (re-located by radialrange) to 1e-7*size',
-               'Path.cropped snaps T within 1e-8 (np.isclose) of a joint onto the joint, as its code documents; tolerances include that']
+               'Path.cropped snaps a crop end whose segment parameter is within np.isclose of 1 (1e-5) or 0 (1e-8) onto the joint, as its code documents; tolerances include that']
 TIERS = {
     'quick': {'shards': 14, 'random': 14000, 'timeout': 600, 'min_cases': 9000,
               'require_branches': ['crop:interior-bezier', 'crop:arc-large', 'path:wrap', 'path:retraced',
@@ -203,7 +203,8 @@ def post_path_cropped(call):
                 for s in p for pts in [gen.spec_points(gen.seg_spec(s))])
     # arcs are re-parameterised from their end points: positions are good to ~sqrt(eps)*radius (C04)
     arcr = max([max(s.radius.real, s.radius.imag) for s in p if type(s).__name__ == 'Arc'] or [0.0])
-    tol = 1e-9 * size + 1e-7 * speed + 1e-9 * arcr + 1e-6 * max([seg_size(x) for x in p if type(x).__name__ == 'Arc' and base_tol(x) > 2e-9 * seg_size(x)] or [0.0])
+    # np.isclose(t, 1) snaps a crop end within 1e-5 (rtol) of a segment's end onto the joint, np.isclose(t, 0) within 1e-8
+    tol = 1e-9 * size + 1.1e-5 * speed + 1e-9 * arcr + 1e-6 * max([seg_size(x) for x in p if type(x).__name__ == 'Arc' and base_tol(x) > 2e-9 * seg_size(x)] or [0.0])
     tag = 'wrap' if wrap else 'plain'
     if len(r) == 0:
         ctx.violation('Path.cropped/empty', 'cropped path is empty')
@@ -227,7 +228,7 @@ def post_path_cropped(call):
         got_len = r.length()
     except Exception:
         return True
-    ltol = 1e-6 * L + 4e-8 * speed * 2
+    ltol = 1e-6 * L + 1.1e-5 * speed * 2
     if not (math.isfinite(got_len) and math.isfinite(want_len)):
         ctx.skip('length not finite (C06\'s subject)')
         return True
